@@ -685,6 +685,17 @@ fn cmd_run(args: &[String]) -> i32 {
             break;
         }
     }
+    {
+        // signatures of the non-trivial families, for an exact union across workers
+        let mut v: Vec<u64> = nontrivial_sigs.iter().copied().collect();
+        v.sort_unstable();
+        let mut bytes = Vec::with_capacity(v.len() * 8 + 8);
+        bytes.extend_from_slice(&(sigs.len() as u64).to_le_bytes());
+        for x in &v {
+            bytes.extend_from_slice(&x.to_le_bytes());
+        }
+        let _ = std::fs::write(format!("{}.sigs", out), bytes);
+    }
     rep.distinct_signatures = sigs.len() as u64;
     rep.nontrivial_signatures = nontrivial_sigs.len() as u64;
     rep.cost = COST.lock().unwrap().clone();
@@ -745,6 +756,28 @@ fn cmd_gen(args: &[String]) -> i32 {
     0
 }
 
+fn cmd_merge_sigs(args: &[String]) -> i32 {
+    let mut all: Vec<u64> = Vec::new();
+    let mut distinct_total = 0u64;
+    for f in args {
+        let b = match std::fs::read(f) {
+            Ok(b) => b,
+            Err(_) => continue,
+        };
+        if b.len() < 8 {
+            continue;
+        }
+        distinct_total += u64::from_le_bytes(b[0..8].try_into().unwrap());
+        for c in b[8..].chunks_exact(8) {
+            all.push(u64::from_le_bytes(c.try_into().unwrap()));
+        }
+    }
+    all.sort_unstable();
+    all.dedup();
+    println!("{}", serde_json::json!({ "nontrivial": all.len(), "distinct": distinct_total.max(all.len() as u64) }));
+    0
+}
+
 fn cmd_info() -> i32 {
     println!(
         "{}",
@@ -790,6 +823,7 @@ fn main() {
         "minimise" => minimise::cmd_minimise(&args[1..]),
         "gen" => cmd_gen(&args[1..]),
         "info" => cmd_info(),
+        "merge-sigs" => cmd_merge_sigs(&args[1..]),
         other => {
             eprintln!("memsim: unknown command {}", other);
             2
